@@ -1,12 +1,12 @@
 CONSTANTS K = 1
 MaxLen = 4
 Patterns <- PD5
-Patterns2 <- PD5
-Starts <- SAll
+Patterns2 <- PQ3
+Starts <- S01
 Syms <- Sym5
-Rows <- R2
+Rows <- R1
 Modes <- BothModes
-Widths <- W26
+Widths <- W4
 ChkKinds <- CkAll
 EmitOn = TRUE
 INIT Init
